@@ -274,3 +274,45 @@ func ZZ_C03_I5() {
 	zzverif.Known("C03-K1", false)
 	zzverif.Reach("I5 end")
 }
+
+// ZZ_C03_I6: the chain id a signature is checked against stays this chain's id
+// for the whole life of the node: after further Info calls (abci_info of a
+// running node) and after a restart on the same data.  A transfer signed for
+// the empty chain id or for another chain is rejected, one signed for this
+// chain is accepted.
+func ZZ_C03_I6() {
+	govp := ctrlertypes.Test1GovParams()
+	n := zzNewGenesisBanded(3, 1, govp).start()
+	n.emptyBlock(0)
+	n.emptyBlock(0)
+	switch zzverif.Choose("before", 3) {
+	case 1: // the consensus engine / an RPC client asks for Info again
+		n.app.Info(abcitypes.RequestInfo{})
+	case 2: // restart on a copy of the data directory
+		b := &zzNode{dir: zzverif.CopyDir(n.dir), gov: govp, nvals: 1, height: n.height}
+		b.app = zzOpenApp(b.dir)
+		b.app.Info(abcitypes.RequestInfo{})
+		n = b
+	}
+	n.begin(0, nil, nil)
+	signedFor := zzverif.Choose("signed.for", 3) // this chain | the empty chain id | another chain
+	t := &zzTx{from: 1, to: 2, typ: ctrlertypes.TRX_TRANSFER, amount: zzverif.NondetU256Below("amount", new(uint256.Int).Lsh(uint256.NewInt(1), 64)),
+		gas: govp.MinTrxGas(), gasPrice: govp.GasPrice(), nonce: n.nonce(1), signer: 1}
+	switch signedFor {
+	case 1:
+		t.chainEmpty = true
+	case 2:
+		t.chain = "other-chain"
+	}
+	pre := n.snap(nil, nil)
+	r := n.deliver(t)
+	if signedFor == 0 {
+		zzverif.Assert(r.Code == 0, "I6 a transfer signed for this chain is accepted")
+		zzverif.Reach("I6 own chain accepted")
+	} else {
+		zzverif.Assert(r.Code != 0, "I6 a transaction signed for another (or the empty) chain id is never accepted")
+		zzAssertSame(pre, n.snap(nil, nil), "I6 rejected tx")
+	}
+	n.end()
+	zzverif.Reach("I6 end")
+}
